@@ -228,6 +228,9 @@ def instance_evaluate():
              &&& forall|k: u64| mid0.contains_key(k) ==> #[trigger] fin_st.contains_key(k)
              &&& forall|k: u64| mid0.contains_key(k) && !self.decision_variable_dependency@.contains_key(k) ==> #[trigger] fin_st[k] == mid0[k]
              &&& forall|k: u64| self.decision_variable_dependency@.contains_key(k) ==> #[trigger] fin_st.contains_key(k)
+             // dependent variables (not given or fixed by the caller) carry the value of their defining function at the reported state
+             &&& disj(self.decision_variable_dependency@, mid0) ==> forall|k: u64| #[trigger] self.decision_variable_dependency@.contains_key(k)
+                    ==> dep_ok(self.decision_variable_dependency@[k], fin_st, fin_st[k])
              // everything else is a defined variable filled with the point of its bound nearest to zero
              &&& forall|k: u64| #![trigger fin_st.contains_key(k)] fin_st.contains_key(k) && !mid0.contains_key(k) && !self.decision_variable_dependency@.contains_key(k)
                     ==> exists|i: int| 0 <= i < self.decision_variables.len() && (#[trigger] self.decision_variables[i]).id == k
@@ -264,10 +267,57 @@ def instance_evaluate():
                     dict(kind='for', it='it_4', inv='''invariant
                 forall|k: u64| #[trigger] mid.contains_key(k) ==> state.entries@.contains_key(k) && state.entries@[k] == mid[k],
                 forall|i: int| 0 <= i < it_4.index@ ==> state.entries@.contains_key((#[trigger] self.decision_variables[i]).id),
+                forall|k: u64| #[trigger] self.decision_variable_dependency@.contains_key(k) ==> mid.contains_key(k),
+                dep_all ==> forall|k: u64| #[trigger] self.decision_variable_dependency@.contains_key(k) ==> dep_ok(self.decision_variable_dependency@[k], state.entries@, state.entries@[k]),
                 forall|k: u64| #![trigger state.entries@.contains_key(k)] state.entries@.contains_key(k) && !mid.contains_key(k)
                     ==> exists|i: int| 0 <= i < it_4.index@ && (#[trigger] self.decision_variables[i]).id == k
                         && is_ntz(dv_lower(self.decision_variables[i]), dv_upper(self.decision_variables[i]), state.entries@[k]@),'''),
                 ],
                 proofs=[(('before', r'let mut feasible = feasible_relaxed;'), 'let ghost nc = self.constraints.len() as int;\n        '),
                         (('before', r'let mut state = state\.vclone\(\);'), 'let ghost st0 = state.entries@;\n        '),
-                        (('after', r'eval_dependencies\(&self\.decision_variable_dependency, &mut state\)\?;'), '\n        let ghost mid = state.entries@;')])
+                        (('after', r'eval_dependencies\(&self\.decision_variable_dependency, &mut state\)\?;'), '\n        let ghost mid = state.entries@; let ghost dep_all = disj(self.decision_variable_dependency@, subst_map(self.decision_variables@, self.decision_variables.len() as int, st0));')])
+
+
+# ---------------------------------------------------------------- C04
+def eval_dependencies():
+    PEND = '''forall|j: int| 0 <= j < %(v)s.len() ==> dependencies@.contains_key(*(#[trigger] %(v)s[j]).0) && dependencies@[*%(v)s[j].0] == *%(v)s[j].1,
+            disj(dependencies@, old(state).entries@) ==> forall|j: int| 0 <= j < %(v)s.len() ==> !state.entries@.contains_key(*(#[trigger] %(v)s[j]).0),
+            forall|i: int, j: int| 0 <= i < j < %(v)s.len() ==> *(#[trigger] %(v)s[i]).0 != *(#[trigger] %(v)s[j]).0,'''
+    COMMON = '''forall|k: u64| #[trigger] old(state).entries@.contains_key(k) ==> state.entries@.contains_key(k),
+            forall|k: u64| #![trigger old(state).entries@[k]] #![trigger state.entries@[k]] old(state).entries@.contains_key(k) && !dependencies@.contains_key(k) ==> state.entries@[k] == old(state).entries@[k],
+            forall|k: u64| #[trigger] state.entries@.contains_key(k) ==> old(state).entries@.contains_key(k) || dependencies@.contains_key(k),
+            disj(dependencies@, old(state).entries@) ==> forall|k: u64| #![trigger dependencies@.contains_key(k)] dependencies@.contains_key(k) && state.entries@.contains_key(k) ==> dep_ok(dependencies@[k], state.entries@, state.entries@[k]),
+            forall|k: u64| #[trigger] dependencies@.contains_key(k) ==> state.entries@.contains_key(k)
+                || in_keys(bucket@, bucket.len() as int, k) || in_keys(not_evaluated@, not_evaluated.len() as int, k),
+            forall|i: int, j: int| 0 <= i < bucket.len() && 0 <= j < not_evaluated.len() ==> *(#[trigger] bucket[i]).0 != *(#[trigger] not_evaluated[j]).0,
+            ''' + PEND % dict(v='bucket') + '\n            ' + PEND % dict(v='not_evaluated')
+    return Unit('eval_dependencies', E, 'eval_dependencies', impl=None,
+                sig='fn eval_dependencies( dependencies: &HashMap<u64, Function>, state: &mut State, ) -> Result<BTreeSet<u64>>',
+                header='''pub fn eval_dependencies(dependencies: &HashMap<u64, Function>, state: &mut State) -> (r: Result<BTreeSet<u64>, VErr>)
+    ensures
+        // Ok only when EVERY dependent variable got a value (no partial answer); given values of non-dependent ids are untouched
+        r is Ok ==> (forall|k: u64| #[trigger] old(state).entries@.contains_key(k) ==> final(state).entries@.contains_key(k))
+            && (forall|k: u64| #[trigger] dependencies@.contains_key(k) ==> final(state).entries@.contains_key(k))
+            && (forall|k: u64| #![trigger old(state).entries@[k]] #![trigger final(state).entries@[k]] old(state).entries@.contains_key(k) && !dependencies@.contains_key(k) ==> final(state).entries@[k] == old(state).entries@[k])
+            && (forall|k: u64| #[trigger] final(state).entries@.contains_key(k) ==> old(state).entries@.contains_key(k) || dependencies@.contains_key(k)),
+        // under the instance-level well-formedness of the property (dependent ids are not given by the caller's state):
+        // each dependent variable equals its defining function at the FINAL state, through chains, for every iteration order
+        r is Ok && disj(dependencies@, old(state).entries@) ==> forall|k: u64| #[trigger] dependencies@.contains_key(k) ==> dep_ok(dependencies@[k], final(state).entries@, final(state).entries@[k]),
+    // termination (no hang on cyclic / unsatisfiable dependencies) is the `decreases` obligations of the two loops''',
+                subs=[('dependencies.iter().collect()', 'hashmap_iter_collect(dependencies)'),
+                      ('used_ids.append(&mut used);', 'btreeset_append(&mut used_ids, &mut used);'),
+                      ('let mut not_evaluated = Vec::new();', 'let mut not_evaluated: Vec<(&u64, &Function)> = Vec::new();')],
+                loops=[dict(kind='loop', inv='''invariant not_evaluated.len() == 0, bucket.len() <= last_size,
+            ''' + COMMON + '''
+        decreases last_size,'''),
+                       dict(kind='while', inv='''invariant bucket.len() + not_evaluated.len() <= last_size,
+            ''' + COMMON + '''
+            ensures bucket.len() == 0,
+            decreases bucket.len(),''')],
+                proofs=[(('after', r'let mut bucket[^;]*;'), '''
+    proof {
+        assert forall|k: u64| #[trigger] dependencies@.contains_key(k) implies in_keys(bucket@, bucket.len() as int, k) by {
+            let j = choose|j: int| 0 <= j < bucket.len() && *(#[trigger] bucket[j]).0 == k;
+            lemma_in_keys_intro(bucket@, bucket.len() as int, j, k);
+        }
+    }''')])
